@@ -420,6 +420,11 @@ def run_property(pid, tier, seed, units, quiet=False):
         else os.path.join(BUILD, 'evidence_scratch')
     if os.environ.get('VERIF_EVIDENCE_DIR'):   # dev helper (seeded-change trials): keep the evidence of record untouched
         evdir = os.path.join(VERIF, os.environ['VERIF_EVIDENCE_DIR'])
+    if tier == 'thorough' and not os.environ.get('VERIF_EVIDENCE_DIR'):
+        ev['coverage']['selftest_kill_matrix'] = selftest(pid, seed)
+        ev['coverage']['selftest_note'] = ('archived seeded changes of this property (/verif/seeded), each applied to a scratch copy and '
+                                           'checked with the quick tier; informative only: a surviving or undecided change does not fail the check')
+        ev['wall_s'] = round(time.time() - t0, 2)
     os.makedirs(evdir, exist_ok=True)
     with open(os.path.join(evdir, pid + '.json'), 'w', encoding='utf-8') as fh:
         json.dump(ev, fh, indent=1)
@@ -446,6 +451,37 @@ def run_property(pid, tier, seed, units, quiet=False):
               f'named clauses for {pid}={len(clauses)} violations={len(seen)} known={len(known_hits)} '
               f'undecided={len(undecided)} wall={ev["wall_s"]}s -> exit {rc}')
     return rc, ev
+
+
+def selftest(pid, seed):
+    """thorough tier: run the quick check of this property against every archived seeded change that names it
+    (scratch copy of the sources outside /repo and /verif, removed afterwards). Returns the kill matrix."""
+    import tempfile
+    rows = []
+    for d in sorted(glob.glob(os.path.join(VERIF, 'seeded', '*'))):
+        try:
+            meta = json.load(open(os.path.join(d, 'meta.json')))
+        except Exception:
+            continue
+        if meta.get('property') != pid:
+            continue
+        scratch = tempfile.mkdtemp(prefix='verif_selftest_')
+        try:
+            os.makedirs(os.path.join(scratch, 'regexml'))
+            shutil.copytree(os.path.join(os.environ.get('VERIF_REPO', '/repo'), 'regexml', 'src'), os.path.join(scratch, 'regexml', 'src'))
+            pr = subprocess.run(['patch', '-p1', '-s', '-d', scratch, '-i', os.path.join(d, 'patch.diff')], capture_output=True, text=True)
+            if pr.returncode != 0:
+                rows.append({'change': os.path.basename(d), 'result': 'skipped: patch no longer applies'})
+                continue
+            env = dict(os.environ, VERIF_REPO=scratch, VERIF_EVIDENCE_DIR='build/selftest_ev', VERIF_SEED=str(seed))
+            cr = subprocess.run([os.path.join(VERIF, 'check'), pid, '--tier', 'quick'], cwd=VERIF, env=env, capture_output=True, text=True, timeout=1800)
+            obl = sorted(set(re.findall(r'obligation=(\S+)', cr.stdout)))
+            rows.append({'change': os.path.basename(d), 'exit': cr.returncode,
+                         'result': 'killed' if cr.returncode == 1 else ('undecided' if cr.returncode == 2 else 'survived'),
+                         'obligations': obl[:6]})
+        finally:
+            shutil.rmtree(scratch, ignore_errors=True)
+    return rows
 
 
 def try_witness(pid, fl, replay_path):
